@@ -179,7 +179,10 @@ func ReadResponse(r *bufio.Reader) (*Response, error) {
 	}
 
 	// 读取Body
-	cl := resp.Header.Int(FieldContentLength)
+	cl, err := resp.Header.contentLength()
+	if err != nil {
+		return nil, err
+	}
 	if cl > 0 {
 		// 读取 n 字节的字串Body
 		body := make([]byte, cl)
